@@ -190,6 +190,12 @@ func execSessMulti(args []string) string {
 			if err == nil && !waitFor(sh[k], wantS[k]) {
 				failed = "bomb-not-answered"
 			}
+			// the client's own close callback follows the server's Close frame: wait for it too, so that the
+			// observation does not depend on when it is taken
+			wantC[k]++
+			if failed == "" && !waitFor(ch[k], wantC[k]) {
+				failed = "client-did-not-see-the-close"
+			}
 		default:
 			return "bad-op " + f[1]
 		}
